@@ -10,7 +10,7 @@ Driver/Val.lean runs these functions against `operator.index`, `float`,
 `complex`, `==`, `hash`, `isinstance`, `callable` on the whole lattice).
 -/
 import TraitsVerif.Py.Basic
-namespace TraitsVerif.Py
+namespace TraitsVerif.Py.Value
 open TraitsVerif
 
 /-! ## Floats on a grid -/
@@ -440,4 +440,4 @@ def asComplex : Val → Except Exc (F × F)
     | .ok f => .ok (f, .fin 0)
     | .error e => .error e
 
-end TraitsVerif.Py
+end TraitsVerif.Py.Value
